@@ -215,6 +215,8 @@ class Evaluator:
             v = self._ev(node.args[0])
             if is_unknown(v):
                 return v
+            if isinstance(v, tuple):
+                return tuple(x if is_unknown(x) else self.funcs[d](need(x)) for x in v)
             return self.funcs[d](need(v))
         if d == "np.diff" and len(node.args) == 1:
             v = self._ev(node.args[0])
